@@ -56,8 +56,10 @@ def nested_ranges_intersect_to_inner():
     orig = ranges.RangeMixin.merge
 
     def merge(self, other, intersect=True):
-        if not intersect:
-            return orig(self, other, intersect=False)
+        # (the recorded finding is about TermRange, which is all that test pins: anything else that reaches this
+        # method is left as the code has it, so that it is judged, not excused)
+        if not intersect or type(self) is not ranges.TermRange or type(other) is not ranges.TermRange:
+            return orig(self, other, intersect=intersect)
         s1, s2 = self._comparable_start(), other._comparable_start()
         e1, e2 = self._comparable_end(), other._comparable_end()
         if s1 >= s2 and e1 <= e2:
@@ -104,7 +106,7 @@ def and_does_not_merge_ranges():
             depth[0] -= 1
 
     def overlaps(self, other):
-        if depth[0] > 0:
+        if depth[0] > 0 and type(self) is ranges.TermRange and type(other) is ranges.TermRange:
             return False
         return orig_over(self, other)
     compound.And.normalize = normalize
